@@ -367,6 +367,8 @@ pub struct DrawTarget<Backing = Vec<u32>> {
     clip_stack: Vec<Clip>,
     layer_stack: Vec<Layer>,
     transform: Transform,
+    #[cfg(raqote_verif)]
+    verif_id: u64,
 }
 
 impl DrawTarget {
@@ -381,6 +383,8 @@ impl DrawTarget {
             clip_stack: Vec::new(),
             layer_stack: Vec::new(),
             transform: Transform::identity(),
+            #[cfg(raqote_verif)]
+            verif_id: crate::verif_trace::new_id(width, height),
         }
     }
 
@@ -396,12 +400,16 @@ impl DrawTarget {
             buf: vec,
             clip_stack: Vec::new(),
             layer_stack: Vec::new(),
-            transform: Transform::identity()
+            transform: Transform::identity(),
+            #[cfg(raqote_verif)]
+            verif_id: crate::verif_trace::new_id(width, height),
         }
     }
 
     /// Take ownership of the buffer backing the DrawTarget
     pub fn into_vec(self) -> Vec<u32> {
+        #[cfg(raqote_verif)]
+        let _verif = crate::verif_trace::enter(self.verif_id, self.width, self.height, self.buf.as_ref(), || "{\"op\":\"observe\"}".to_string());
         self.buf
     }
 }
@@ -421,7 +429,9 @@ impl<Backing : AsRef<[u32]> + AsMut<[u32]>> DrawTarget<Backing> {
             buf,
             clip_stack: Vec::new(),
             layer_stack: Vec::new(),
-            transform: Transform::identity()
+            transform: Transform::identity(),
+            #[cfg(raqote_verif)]
+            verif_id: crate::verif_trace::new_id(width, height),
         }
     }
 
@@ -435,6 +445,8 @@ impl<Backing : AsRef<[u32]> + AsMut<[u32]>> DrawTarget<Backing> {
 
     /// sets a transform that will be applied to all drawing operations
     pub fn set_transform(&mut self, transform: &Transform) {
+        #[cfg(raqote_verif)]
+        let _verif = crate::verif_trace::enter(self.verif_id, self.width, self.height, self.buf.as_ref(), || format!("{{\"op\":\"set_transform\",{}}}", crate::verif_trace::transform(transform)));
         self.transform = *transform;
     }
 
@@ -563,6 +575,8 @@ impl<Backing : AsRef<[u32]> + AsMut<[u32]>> DrawTarget<Backing> {
     }
 
     pub fn push_clip_rect(&mut self, rect: IntRect) {
+        #[cfg(raqote_verif)]
+        let _verif = crate::verif_trace::enter(self.verif_id, self.width, self.height, self.buf.as_ref(), || format!("{{\"op\":\"push_clip_rect\",\"r\":[{},{},{},{}]}}", rect.min.x, rect.min.y, rect.max.x, rect.max.y));
         // intersect with current clip
         let clip = match self.clip_stack.last() {
             Some(Clip {
@@ -582,10 +596,14 @@ impl<Backing : AsRef<[u32]> + AsMut<[u32]>> DrawTarget<Backing> {
     }
 
     pub fn pop_clip(&mut self) {
+        #[cfg(raqote_verif)]
+        let _verif = crate::verif_trace::enter(self.verif_id, self.width, self.height, self.buf.as_ref(), || "{\"op\":\"pop_clip\"}".to_string());
         self.clip_stack.pop();
     }
 
     pub fn push_clip(&mut self, path: &Path) {
+        #[cfg(raqote_verif)]
+        let _verif = crate::verif_trace::enter(self.verif_id, self.width, self.height, self.buf.as_ref(), || format!("{{\"op\":\"push_clip\",\"path\":{}}}", crate::verif_trace::path(path)));
         self.apply_path(path);
 
         // XXX: restrict to clipped area
@@ -620,12 +638,16 @@ impl<Backing : AsRef<[u32]> + AsMut<[u32]>> DrawTarget<Backing> {
     /// Pushes a new layer as the drawing target. This is used for implementing
     /// group opacity effects.
     pub fn push_layer(&mut self, opacity: f32) {
+        #[cfg(raqote_verif)]
+        let _verif = crate::verif_trace::enter(self.verif_id, self.width, self.height, self.buf.as_ref(), || format!("{{\"op\":\"push_layer\",\"opacity\":{}}}", crate::verif_trace::f(opacity)));
         self.push_layer_with_blend(opacity, BlendMode::SrcOver)
     }
 
     /// Pushes a new layer as the drawing target. This is used for implementing
     /// group opacity or blend effects.
     pub fn push_layer_with_blend(&mut self, opacity: f32, blend: BlendMode) {
+        #[cfg(raqote_verif)]
+        let _verif = crate::verif_trace::enter(self.verif_id, self.width, self.height, self.buf.as_ref(), || format!("{{\"op\":\"push_layer\",\"opacity\":{},\"blend\":\"{:?}\"}}", crate::verif_trace::f(opacity), blend));
         // nothing outside the target can ever be seen, and the clip can be arbitrarily large
         let mut rect = self.clip_bounds().intersection_unchecked(&intrect(0, 0, self.width, self.height));
         // the clip can be an inverted box (disjoint clip rects) whose width * height
@@ -644,6 +666,8 @@ impl<Backing : AsRef<[u32]> + AsMut<[u32]>> DrawTarget<Backing> {
     /// Draws the most recently pushed layer to the drawing target with
     /// the pushed opacity applied.
     pub fn pop_layer(&mut self) {
+        #[cfg(raqote_verif)]
+        let _verif = crate::verif_trace::enter(self.verif_id, self.width, self.height, self.buf.as_ref(), || "{\"op\":\"pop_layer\"}".to_string());
         let layer = self.layer_stack.pop().unwrap();
         let opacity = (layer.opacity * 255. + 0.5) as u8;
         // Allocating an entire mask just for the opacity is needlessly bad.
@@ -668,6 +692,8 @@ impl<Backing : AsRef<[u32]> + AsMut<[u32]>> DrawTarget<Backing> {
     /// Draws an image at (x, y) with the size (width, height). This will rescale the image to the
     /// destination size.
     pub fn draw_image_with_size_at(&mut self, width: f32, height: f32, x: f32, y: f32, image: &Image, options: &DrawOptions) {
+        #[cfg(raqote_verif)]
+        let _verif = crate::verif_trace::enter(self.verif_id, self.width, self.height, self.buf.as_ref(), || format!("{{\"op\":\"draw_image_with_size_at\",\"w\":{},\"h\":{},\"x\":{},\"y\":{},\"img\":{},\"opts\":{}}}", crate::verif_trace::f(width), crate::verif_trace::f(height), crate::verif_trace::f(x), crate::verif_trace::f(y), crate::verif_trace::image(image), crate::verif_trace::opts(options)));
         let source = Source::Image(*image,
                                    ExtendMode::Pad,
                                    FilterMode::Bilinear,
@@ -678,16 +704,22 @@ impl<Backing : AsRef<[u32]> + AsMut<[u32]>> DrawTarget<Backing> {
 
     /// Draws an image at x, y
     pub fn draw_image_at(&mut self, x: f32, y: f32, image: &Image, options: &DrawOptions) {
+        #[cfg(raqote_verif)]
+        let _verif = crate::verif_trace::enter(self.verif_id, self.width, self.height, self.buf.as_ref(), || format!("{{\"op\":\"draw_image_at\",\"x\":{},\"y\":{},\"img\":{},\"opts\":{}}}", crate::verif_trace::f(x), crate::verif_trace::f(y), crate::verif_trace::image(image), crate::verif_trace::opts(options)));
         self.draw_image_with_size_at(image.width as f32, image.height as f32, x, y, image, options);
     }
 
     /// Draws `src` through an untransformed `mask` positioned at `x`, `y` in device space
     pub fn mask(&mut self, src: &Source, x: i32, y: i32, mask: &Mask) {
+        #[cfg(raqote_verif)]
+        let _verif = crate::verif_trace::enter(self.verif_id, self.width, self.height, self.buf.as_ref(), || format!("{{\"op\":\"mask\",\"x\":{},\"y\":{},\"mw\":{},\"mh\":{},\"data\":{:?},\"src\":{}}}", x, y, mask.width, mask.height, mask.data, crate::verif_trace::source(src)));
         self.composite(src, Some(&mask.data), intrect(x, y, x + mask.width, y + mask.height), intrect(x, y, x + mask.width, y + mask.height), BlendMode::SrcOver, 1.);
     }
 
     /// Strokes `path` with `style` and fills the result with `src`
     pub fn stroke(&mut self, path: &Path, src: &Source, style: &StrokeStyle, options: &DrawOptions) {
+        #[cfg(raqote_verif)]
+        let _verif = crate::verif_trace::enter(self.verif_id, self.width, self.height, self.buf.as_ref(), || format!("{{\"op\":\"stroke\",\"path\":{},\"src\":{},\"style\":{},\"opts\":{}}}", crate::verif_trace::path(path), crate::verif_trace::source(src), crate::verif_trace::style(style), crate::verif_trace::opts(options)));
         let tolerance = 0.1;
 
         // Since we're flattening in userspace, we need to compensate for the transform otherwise
@@ -709,6 +741,8 @@ impl<Backing : AsRef<[u32]> + AsMut<[u32]>> DrawTarget<Backing> {
     /// Fills the rect `x`, `y,`, `width`, `height` with `src`. If the result is an
     /// integer aligned rectangle performance will be faster than filling a rectangular path.
     pub fn fill_rect(&mut self, x: f32, y: f32, width: f32, height: f32, src: &Source, options: &DrawOptions) {
+        #[cfg(raqote_verif)]
+        let _verif = crate::verif_trace::enter(self.verif_id, self.width, self.height, self.buf.as_ref(), || format!("{{\"op\":\"fill_rect\",\"r\":[{},{},{},{}],\"src\":{},\"opts\":{}}}", crate::verif_trace::f(x), crate::verif_trace::f(y), crate::verif_trace::f(width), crate::verif_trace::f(height), crate::verif_trace::source(src), crate::verif_trace::opts(options)));
         let ix = x as i32;
         let iy = y as i32;
         let iwidth = width as i32;
@@ -734,6 +768,8 @@ impl<Backing : AsRef<[u32]> + AsMut<[u32]>> DrawTarget<Backing> {
 
     /// Fills `path` with `src`
     pub fn fill(&mut self, path: &Path, src: &Source, options: &DrawOptions) {
+        #[cfg(raqote_verif)]
+        let _verif = crate::verif_trace::enter(self.verif_id, self.width, self.height, self.buf.as_ref(), || format!("{{\"op\":\"fill\",\"path\":{},\"src\":{},\"opts\":{}}}", crate::verif_trace::path(path), crate::verif_trace::source(src), crate::verif_trace::opts(options)));
         self.apply_path(path);
         let bounds = self.rasterizer.get_bounds();
         if bounds.size().width > 0 && bounds.size().height > 0 {
@@ -769,6 +805,8 @@ impl<Backing : AsRef<[u32]> + AsMut<[u32]>> DrawTarget<Backing> {
 
     /// Fills the current clip with the solid color `solid`
     pub fn clear(&mut self, solid: SolidSource) {
+        #[cfg(raqote_verif)]
+        let _verif = crate::verif_trace::enter(self.verif_id, self.width, self.height, self.buf.as_ref(), || format!("{{\"op\":\"clear\",\"color\":[{},{},{},{}]}}", solid.a, solid.r, solid.g, solid.b));
         let mut pb = PathBuilder::new();
         if self.clip_stack.is_empty() && self.layer_stack.is_empty() {
             let color = solid.to_u32();
@@ -824,6 +862,8 @@ impl<Backing : AsRef<[u32]> + AsMut<[u32]>> DrawTarget<Backing> {
         src: &Source,
         options: &DrawOptions,
     ) {
+        #[cfg(raqote_verif)]
+        let _verif = crate::verif_trace::enter(self.verif_id, self.width, self.height, self.buf.as_ref(), || "{\"op\":\"unsupported\",\"what\":\"draw_glyphs\"}".to_string());
         let antialias_mode = match options.antialias {
             AntialiasMode::Gray => fk::RasterizationOptions::GrayscaleAa,
             AntialiasMode::None => fk::RasterizationOptions::Bilevel,
@@ -1050,6 +1090,8 @@ impl<Backing : AsRef<[u32]> + AsMut<[u32]>> DrawTarget<Backing> {
     /// Draws `src_rect` of `src` at `dst`. The current transform and clip are ignored.
     /// `src_rect` is clamped to (0, 0, src.width, src.height).
     pub fn copy_surface<SrcBacking : AsRef<[u32]>>(&mut self, src: &DrawTarget<SrcBacking>, src_rect: IntRect, dst: IntPoint) {
+        #[cfg(raqote_verif)]
+        let _verif = crate::verif_trace::enter(self.verif_id, self.width, self.height, self.buf.as_ref(), || format!("{{\"op\":\"copy_surface\",\"img\":{},\"rect\":[{},{},{},{}],\"dst\":[{},{}]}}", format!("{{\"w\":{},\"h\":{},\"data\":{}}}", src.width, src.height, crate::verif_trace::pixels(src.buf.as_ref())), src_rect.min.x, src_rect.min.y, src_rect.max.x, src_rect.max.y, dst.x, dst.y));
         self.composite_surface(src, src_rect, dst, |src, dst| {
             dst.copy_from_slice(src)
         })
@@ -1059,6 +1101,8 @@ impl<Backing : AsRef<[u32]> + AsMut<[u32]>> DrawTarget<Backing> {
     /// The current transform and clip are ignored.
     /// `src_rect` is clamped to (0, 0, `src.width`, `src.height`).
     pub fn blend_surface<SrcBacking : AsRef<[u32]>>(&mut self, src: &DrawTarget<SrcBacking>, src_rect: IntRect, dst: IntPoint, blend: BlendMode) {
+        #[cfg(raqote_verif)]
+        let _verif = crate::verif_trace::enter(self.verif_id, self.width, self.height, self.buf.as_ref(), || format!("{{\"op\":\"blend_surface\",\"img\":{},\"rect\":[{},{},{},{}],\"dst\":[{},{}],\"blend\":\"{:?}\"}}", format!("{{\"w\":{},\"h\":{},\"data\":{}}}", src.width, src.height, crate::verif_trace::pixels(src.buf.as_ref())), src_rect.min.x, src_rect.min.y, src_rect.max.x, src_rect.max.y, dst.x, dst.y, blend));
         let blend_fn = build_blend_proc::<BlendRow>(blend);
         self.composite_surface(src, src_rect, dst, |src, dst| {
             blend_fn(src, dst);
@@ -1068,6 +1112,8 @@ impl<Backing : AsRef<[u32]> + AsMut<[u32]>> DrawTarget<Backing> {
     /// Blends `src_rect` of `src` at `dst` using `alpha`. The current transform and clip are ignored.
     /// `src_rect` is clamped to (0, 0, `src.width`, `src.height`).
     pub fn blend_surface_with_alpha<SrcBacking : AsRef<[u32]>>(&mut self, src: &DrawTarget<SrcBacking>, src_rect: IntRect, dst: IntPoint, alpha: f32) {
+        #[cfg(raqote_verif)]
+        let _verif = crate::verif_trace::enter(self.verif_id, self.width, self.height, self.buf.as_ref(), || format!("{{\"op\":\"blend_surface_with_alpha\",\"img\":{},\"rect\":[{},{},{},{}],\"dst\":[{},{}],\"alpha\":{}}}", format!("{{\"w\":{},\"h\":{},\"data\":{}}}", src.width, src.height, crate::verif_trace::pixels(src.buf.as_ref())), src_rect.min.x, src_rect.min.y, src_rect.max.x, src_rect.max.y, dst.x, dst.y, crate::verif_trace::f(alpha)));
         let alpha = (alpha * 255. + 0.5) as u8;
 
         self.composite_surface(src, src_rect, dst, |src, dst| {
@@ -1077,18 +1123,24 @@ impl<Backing : AsRef<[u32]> + AsMut<[u32]>> DrawTarget<Backing> {
 
     /// Returns a reference to the underlying pixel data
     pub fn get_data(&self) -> &[u32] {
+        #[cfg(raqote_verif)]
+        let _verif = crate::verif_trace::enter(self.verif_id, self.width, self.height, self.buf.as_ref(), || "{\"op\":\"observe\"}".to_string());
         self.buf.as_ref()
     }
 
     /// Returns a mut reference to the underlying pixel data as ARGB with a representation
     /// like: (A << 24) | (R << 16) | (G << 8) | B
     pub fn get_data_mut(&mut self) -> &mut [u32] {
+        #[cfg(raqote_verif)]
+        let _verif = crate::verif_trace::enter(self.verif_id, self.width, self.height, self.buf.as_ref(), || "{\"op\":\"mutate\"}".to_string());
         self.buf.as_mut()
     }
 
     /// Returns a reference to the underlying pixel data as individual bytes with the order BGRA
     /// on little endian.
     pub fn get_data_u8(&self) -> &[u8] {
+        #[cfg(raqote_verif)]
+        let _verif = crate::verif_trace::enter(self.verif_id, self.width, self.height, self.buf.as_ref(), || "{\"op\":\"observe\"}".to_string());
         let buf = self.buf.as_ref();
         let p = buf.as_ptr();
         let len = buf.len();
@@ -1100,6 +1152,8 @@ impl<Backing : AsRef<[u32]> + AsMut<[u32]>> DrawTarget<Backing> {
     /// Returns a mut reference to the underlying pixel data as individual bytes with the order BGRA
     /// on little endian.
     pub fn get_data_u8_mut(&mut self) -> &mut [u8] {
+        #[cfg(raqote_verif)]
+        let _verif = crate::verif_trace::enter(self.verif_id, self.width, self.height, self.buf.as_ref(), || "{\"op\":\"mutate\"}".to_string());
         let buf = self.buf.as_mut();
         let p = buf.as_mut_ptr();
         let len = buf.len();
@@ -1110,12 +1164,16 @@ impl<Backing : AsRef<[u32]> + AsMut<[u32]>> DrawTarget<Backing> {
 
     /// Take ownership of the buffer backing the DrawTarget
     pub fn into_inner(self) -> Backing {
+        #[cfg(raqote_verif)]
+        let _verif = crate::verif_trace::enter(self.verif_id, self.width, self.height, self.buf.as_ref(), || "{\"op\":\"observe\"}".to_string());
         self.buf
     }
 
     /// Saves the current pixel to a png file at `path`
     #[cfg(feature = "png")]
     pub fn write_png<P: AsRef<std::path::Path>>(&self, path: P) -> Result<(), png::EncodingError> {
+        #[cfg(raqote_verif)]
+        let _verif = crate::verif_trace::enter(self.verif_id, self.width, self.height, self.buf.as_ref(), || "{\"op\":\"observe\"}".to_string());
         let file = File::create(path)?;
 
         let w = &mut BufWriter::new(file);
